@@ -445,6 +445,18 @@ def vmdk_sparse_family():
                    build_vmdk(desc_sectors=2, extents=[
                        'RW 1 SPARSE "%s.vmdk"' % ('p' * 600),
                        'RW 1 SPARSE "/etc/shadow"'])))
+    # the descriptor text ends at the FIRST NUL, whatever follows it
+    images.append(('extent-only-after-an-embedded-nul', build_vmdk(
+        desc_sectors=2, desc_text='createType="monolithicSparse"\n# c\x00'
+        '\nRW 1 SPARSE "x.vmdk"\n')))
+    images.append(('createtype-only-after-an-embedded-nul', build_vmdk(
+        desc_sectors=2, desc_text='# c\x00\ncreateType="monolithicSparse"'
+        '\nRW 1 SPARSE "x.vmdk"\n')))
+    images.append(('unsafe-extent-after-an-embedded-nul', build_vmdk(
+        desc_sectors=2, desc_text='createType="monolithicSparse"\n'
+        'RW 1 SPARSE "x.vmdk"\n\x00RW 1 SPARSE "/etc/passwd"\n')))
+    images.append(('descriptor-starting-with-nul', build_vmdk(
+        desc_text='\x00createType="monolithicSparse"\nRW 1 SPARSE "x"\n')))
     good_so = build_vmdk(create_type='streamOptimized', gd_at_end=True)
     images.append(('stream-optimized-footer', good_so))
 
